@@ -40,7 +40,7 @@ PROPS = {
     "C01": {
         "level": "exploration",
         "build": "plain",
-        "tiers": tiers(4000, 45, 150000, 900),
+        "tiers": tiers(4000, 75, 150000, 900),
         "rule": "seeded histories of AddRule/RemRule/AddFact-over-a-rule-id/EnableRule/Clear/reload/clock advance/SetParents over 1-3 locations "
                 "(child, parent, grandparent) and a 4-id rule space per location; `when` patterns from the JSON fragment including empty map, "
                 "empty array, null, property variables; after every operation a battery of events derived from the stored patterns (instantiated, "
